@@ -817,7 +817,14 @@ func c14c(c *Ctx) {
 		return
 	}
 	item := itemW.argT[0]
-	c.Check(strings.HasPrefix(item, "$1.Items[phi(") && strings.HasSuffix(item, "+1]"), "mart/items-in-order", c.W.Pos(itemW.call.Pos()), "items are written in order", "item written is "+pretty(item)+", expected Items[i] over the range")
+	inOrder := strings.HasPrefix(item, "$1.Items[phi(") && strings.HasSuffix(item, "+1]")
+	if !inOrder && itemW.via == nil && len(itemW.args) == 1 && strings.HasPrefix(item, "$1.Items[") {
+		// an explicit counter: from 0, plus one per iteration
+		if idx := elemIndex(itemW.args[0]); idx != nil {
+			inOrder = ascendingFromZero(idx)
+		}
+	}
+	c.Check(inOrder, "mart/items-in-order", c.W.Pos(itemW.call.Pos()), "items are written in order", "item written is "+pretty(item)+", expected Items[i] over the range")
 	must := siteMust(*itemW)
 	c.Check(hasLit(must, "-("+item+` == "ITEM_NONE")`), "mart/stop-tested-on-written-value", c.W.Pos(itemW.call.Pos()), "an item is written only after the very value to be written was tested not to be ITEM_NONE", "the ITEM_NONE test guarding the write is not made on the value that is written ("+pretty(item)+"): a terminator spelled through a constant would be missed; guards: "+fmt.Sprint(must))
 	// the loop exits (break) under +(item == ITEM_NONE): terminator reachable, item write not
